@@ -403,7 +403,20 @@ type crashCase struct {
 	Kind string `json:"kind"`
 	K    int64  `json:"k"`
 	K2   int64  `json:"k2,omitempty"`
+	// Stop: instead of a crash at file-system step K, the reorganisation is held at this hook
+	// point inside its file replacement while the server is asked to shut down cleanly
+	// (SIGTERM): the replacement is abandoned half way WITHOUT the process dying on the spot
+	// (the shutdown closes the shard; the replacement notices and returns), then the server
+	// is started again
+	Stop string `json:"graceful_stop_while_held_at,omitempty"`
+	// Fail: instead of a crash, the first rename/remove at or after file-system step K fails
+	// with an I/O error (the reorganisation gives up half way, the process lives on); the
+	// live server must still answer as before, then it is stopped (cleanly for even K, by
+	// SIGKILL for odd K) and started again
+	Fail bool `json:"io_error_instead_of_crash,omitempty"`
 }
+
+var stopPoints = []string{"replace-after-rename", "replace-after-log"}
 
 func witness(fs *fileSet, cc crashCase, extra map[string]any) map[string]any {
 	w := map[string]any{"fileset": fs, "case": cc}
@@ -630,22 +643,104 @@ func (rn *runner) crashed(fs *fileSet, cc crashCase, worker, caseNo int) {
 	if fs.SingleWrite {
 		fp0, _ = aggFingerprint(s, fs)
 	}
-	if err := s.FsArm(cc.K, 0); err != nil {
-		c.Broken("arm: %v", err)
-		return
+	var dl, pos string
+	kindLabel := cc.Kind
+	if cc.Stop != "" {
+		kindLabel += "|graceful-stop@" + cc.Stop
 	}
-	_ = reorganise(s, cc.Kind)
-	if s.Alive() && !s.WaitExit(2*time.Second) {
-		_ = s.FsArm(0, 0)
-		c.Inconclusive("arm-not-reached", 1)
-		return
+	if cc.Stop != "" {
+		n0 := int64(0)
+		if st, err := s.State(db); err == nil {
+			n0 = st.Points[cc.Stop]
+		}
+		if err := s.Points(cc.Stop + "=sleep(2500)"); err != nil {
+			c.Broken("points: %v", err)
+			return
+		}
+		// the file sets are built with background compaction and merge switched off; switch them
+		// on again (as in production) so that the shutdown has a stop signal to give to the
+		// reorganisation in flight — whichever reorganisation reaches the point first is held
+		s.HTTP.Post(s.URL()+"/debug/ctrl?mod=compen&switchon=true&allshards=true", "", nil)
+		s.HTTP.Post(s.URL()+"/debug/ctrl?mod=merge&switchon=true&allshards=true", "", nil)
+		go func() { _ = reorganise(s, cc.Kind) }()
+		reached := false
+		for t := 0; t < 200 && !reached; t++ {
+			time.Sleep(25 * time.Millisecond)
+			if st, err := s.State(db); err == nil {
+				reached = st.Points[cc.Stop] > n0
+			}
+		}
+		if !reached {
+			c.Inconclusive("graceful-stop:point-not-reached", 1)
+			return
+		}
+		clean := s.Stop(60 * time.Second)
+		c.Count("graceful-stops-inside-a-file-replacement", 1)
+		if os.Getenv("C03_DEBUG") != "" {
+			fmt.Printf("DEBUG graceful stop %s %s clean=%v\n%s\n", cc.Kind, cc.Stop, clean, tailLines(s.StdoutTail(1<<16), 25))
+		}
+		if !clean {
+			c.Count("graceful-stops-that-needed-a-kill-after-60s", 1)
+		}
+		dl = "graceful stop (SIGTERM) while " + cc.Kind + " was held at " + cc.Stop
+		pos = "graceful-stop@" + cc.Stop
+	} else if cc.Fail {
+		if err := s.FsFail(cc.K); err != nil {
+			c.Broken("fail arm: %v", err)
+			return
+		}
+		_ = reorganise(s, cc.Kind)
+		_ = s.FsFail(0)
+		dl = s.DieLog()
+		if !strings.Contains(dl, "failed=EIO") {
+			c.Count("io-error-cases-in-which-no-rename-or-remove-followed-step-k", 1)
+			return
+		}
+		pos = "?"
+		if f := strings.Fields(dl); len(f) >= 3 {
+			pos = "io-error@" + f[1] + "/" + pathClass(f[2])
+		}
+		kindLabel += "|io-error"
+		c.Count("io-errors-injected-into-a-reorganisation", 1)
+		if !s.Alive() {
+			c.Violation("server-died-after-io-error-in:"+cc.Kind+":"+firstFatal(s.StdoutTail(1<<20)), fmt.Sprintf("file set %d (%s): [%s] during %s: the server died: %s", fs.Index, fs.Config, dl, cc.Kind, firstFatal(s.StdoutTail(1<<20))),
+				witness(fs, cc, map[string]any{"failed_step": dl, "stdout": s.StdoutTail(6000)}))
+			return
+		}
+		// the live server, after the reorganisation gave up: same answers
+		live, _, err := kit.StableDump(s, db, fs.msts, fs.schema, func(cur model.Contents) bool { return len(model.Diff(d0, cur, "", 1)) == 0 }, 10*time.Second)
+		if err == nil {
+			if d := model.Diff(d0, live, "", 6); len(d) > 0 {
+				c.Violation("contents-changed-by-a-failed:"+cc.Kind+"|io-error|live", fmt.Sprintf("file set %d (%s): [%s] during %s: the running server answers differently afterwards: %s", fs.Index, fs.Config, dl, cc.Kind, strings.Join(d, "; ")),
+					witness(fs, cc, map[string]any{"failed_step": dl, "diff": d, "files": listing(s), "server_log_errors": grepErrors(s)}))
+				return
+			}
+		}
+		if cc.K%2 == 0 {
+			s.Stop(60 * time.Second)
+			dl += " then clean shutdown"
+		} else {
+			s.Kill()
+			dl += " then SIGKILL"
+		}
+	} else {
+		if err := s.FsArm(cc.K, 0); err != nil {
+			c.Broken("arm: %v", err)
+			return
+		}
+		_ = reorganise(s, cc.Kind)
+		if s.Alive() && !s.WaitExit(2*time.Second) {
+			_ = s.FsArm(0, 0)
+			c.Inconclusive("arm-not-reached", 1)
+			return
+		}
+		dl = s.DieLog()
+		pos = "?"
+		if f := strings.Fields(dl); len(f) >= 3 {
+			pos = f[1] + "/" + pathClass(f[2])
+		}
 	}
-	dl := s.DieLog()
 	atCrash := listing(s)
-	pos := "?"
-	if f := strings.Fields(dl); len(f) >= 3 {
-		pos = f[1] + "/" + pathClass(f[2])
-	}
 	var env []string
 	if cc.K2 > 0 {
 		env = append(env, fmt.Sprintf("VERIF_FS_ARM=%d", cc.K2))
@@ -672,7 +767,7 @@ func (rn *runner) crashed(fs *fileSet, cc crashCase, worker, caseNo int) {
 	}
 	if err := s.WaitReady(120 * time.Second); err != nil {
 		if !s.Alive() {
-			c.Violation("recovery-crash:"+cc.Kind+":"+firstFatal(s.StdoutTail(1<<20)), fmt.Sprintf("file set %d (%s): after a crash before [%s] of %s the server cannot start: %s", fs.Index, fs.Config, dl, cc.Kind, firstFatal(s.StdoutTail(1<<20))),
+			c.Violation("recovery-crash:"+kindLabel+":"+firstFatal(s.StdoutTail(1<<20)), fmt.Sprintf("file set %d (%s): after a crash before [%s] of %s the server cannot start: %s", fs.Index, fs.Config, dl, cc.Kind, firstFatal(s.StdoutTail(1<<20))),
 				witness(fs, cc, map[string]any{"died_before": dl, "stdout": s.StdoutTail(6000)}))
 			return
 		}
@@ -680,6 +775,21 @@ func (rn *runner) crashed(fs *fileSet, cc crashCase, worker, caseNo int) {
 		return
 	}
 	disableBackground(s)
+	if os.Getenv("C03_DEBUG") != "" && cc.Stop != "" {
+		short := func(l []string) string {
+			var o []string
+			for _, x := range l {
+				if i := strings.Index(x, "/tssp/"); i >= 0 {
+					x = x[i+6:]
+				} else if i := strings.Index(x, "compact_log"); i >= 0 {
+					x = x[i:]
+				}
+				o = append(o, strings.Fields(x)[0])
+			}
+			return strings.Join(o, " ")
+		}
+		fmt.Printf("DEBUG %s %s\n  at stop:       %s\n  after restart: %s\n", cc.Kind, cc.Stop, short(atCrash), short(listing(s)))
+	}
 	got, probs, err := kit.StableDump(s, db, fs.msts, fs.schema, func(cur model.Contents) bool { return len(model.Diff(d0, cur, "", 1)) == 0 }, 25*time.Second)
 	if err != nil {
 		c.Inconclusive("recovery-dump-error", 1)
@@ -700,7 +810,7 @@ func (rn *runner) crashed(fs *fileSet, cc crashCase, worker, caseNo int) {
 		return
 	}
 	if d := model.Diff(d0, got, "", 6); len(d) > 0 {
-		c.Violation("contents-changed-after-crash-in:"+cc.Kind, fmt.Sprintf("file set %d (%s): crash before [%s] of %s, after recovery: %s", fs.Index, fs.Config, dl, cc.Kind, strings.Join(d, "; ")),
+		c.Violation("contents-changed-after-crash-in:"+kindLabel, fmt.Sprintf("file set %d (%s): crash before [%s] of %s, after recovery: %s", fs.Index, fs.Config, dl, cc.Kind, strings.Join(d, "; ")),
 			witness(fs, cc, map[string]any{"died_before": dl, "second": second, "diff": d, "files_at_crash": atCrash, "files_after_recovery": listing(s), "server_log_errors": grepErrors(s)}))
 		return
 	}
@@ -708,7 +818,7 @@ func (rn *runner) crashed(fs *fileSet, cc crashCase, worker, caseNo int) {
 		if fp1, err := aggFingerprint(s, fs); err == nil {
 			c.Count("aggregate-fingerprints-compared", 1)
 			if d := fpDiff(fp0, fp1); d != "" {
-				sig := "aggregate-answer-changed-after-crash-in:" + cc.Kind
+				sig := "aggregate-answer-changed-after-crash-in:" + kindLabel
 				if cc.Kind == "merge" && len(listFiles(s).Unordered) > 0 {
 					// the merged ordered files are in place but the out-of-order inputs were not
 					// removed: their rows now exist twice on disk
@@ -863,6 +973,31 @@ func main() {
 		nd := c.Pick(1, 4)
 		for i := 0; i < nd; i++ {
 			cases = append(cases, crashCase{Kind: p.kind, K: 1 + r.Int64N(p.m), K2: 1 + r.Int64N(30)})
+		}
+		// an I/O error instead of a crash at some of the same steps
+		// EXPLORATORY, not part of the registered check (C03_IO_ERRORS=1): an I/O error is not in
+		// the property's domain (it quantifies over crashes), and the unchanged tree does lose
+		// rows on the live server when the delete of an old file fails half way through a
+		// replacement (see DESIGN 10b) - reporting that under C03 would demand more than it states
+		nfail := 0
+		if os.Getenv("C03_IO_ERRORS") != "" {
+			nfail = c.Pick(3, 8)
+		}
+		if exh := len(ks) == int(p.m); exh && nfail > 0 {
+			nfail = int(p.m) // exhaustively enumerated reorganisations: every step
+		}
+		for i := 0; i < nfail; i++ {
+			k := 1 + r.Int64N(p.m)
+			if nfail == int(p.m) {
+				k = int64(i + 1)
+			}
+			cases = append(cases, crashCase{Kind: p.kind, K: k, Fail: true})
+		}
+		// graceful stop while the reorganisation is held inside its file replacement
+		for i, sp := range stopPoints {
+			if i == 0 || c.Thorough() || p.fs.Index%2 == 0 {
+				cases = append(cases, crashCase{Kind: p.kind, Stop: sp})
+			}
 		}
 		total += len(cases)
 		for _, cc := range cases {
@@ -1031,4 +1166,17 @@ func fpDiff(a, b string) string {
 		}
 	}
 	return ""
+}
+
+func tailLines(t string, n int) string {
+	ls := strings.Split(strings.TrimRight(t, "\n"), "\n")
+	if len(ls) > n {
+		ls = ls[len(ls)-n:]
+	}
+	for i := range ls {
+		if len(ls[i]) > 220 {
+			ls[i] = ls[i][:220]
+		}
+	}
+	return strings.Join(ls, "\n")
 }
